@@ -66,7 +66,9 @@ var historyAlphabet = []letter{
 		}
 		return o
 	}},
-	{"W", func(r *rand.Rand, cf ccfg) cop { return cop{kind: "W", raw: []byte{0x93, byte(r.Intn(128)), 0xc0}, wfault: -1} }},
+	{"W", func(r *rand.Rand, cf ccfg) cop {
+		return cop{kind: "W", raw: []byte{0x93, byte(r.Intn(128)), 0xc0}, wfault: -1}
+	}},
 	{"T", func(r *rand.Rand, cf ccfg) cop { return cop{kind: "T", wfault: -1} }},
 }
 
